@@ -48,14 +48,36 @@ pub struct Cfg {
     pub asset_w_maint: f64,
     pub liab_w_maint: f64,
     pub asset_conf_pp: u64,
+    /// departures from the flat world: EMA away from spot, share values away from one
+    #[serde(default)]
+    pub variant: Variant,
+}
+
+#[derive(Clone, Copy, Debug, PartialEq, Eq, serde::Serialize, serde::Deserialize, Default)]
+pub enum Variant {
+    #[default]
+    Plain,
+    /// both oracles' EMA 20 % below spot (set after the positions exist)
+    EmaBelowSpot,
+    /// both oracles' EMA 25 % above spot
+    EmaAboveSpot,
+    /// the collateral bank went through a socialised loss: asset share value 0.8
+    AssetShareBelowOne,
+    /// interest accrued everywhere: share values 1.2 .. 1.3
+    SharesAboveOne,
 }
 
 type Unused = _Unused;
 
 
 fn pyth_spec(price_e8: i64, conf_pp: u64) -> OracleSpec {
+    pyth_spec_ema(price_e8, conf_pp, 100)
+}
+
+fn pyth_spec_ema(price_e8: i64, conf_pp: u64, ema_pct: i64) -> OracleSpec {
     let conf = (price_e8 as u128 * conf_pp as u128 / 100_000) as u64;
-    OracleSpec::Pyth { price: price_e8, conf, ema_price: price_e8, ema_conf: conf, expo: -8 }
+    let ema = price_e8 * ema_pct / 100;
+    OracleSpec::Pyth { price: price_e8, conf, ema_price: ema, ema_conf: (ema as u128 * conf_pp as u128 / 100_000) as u64, expo: -8 }
 }
 
 fn set_price(s: &mut Store, w: &World, b: usize, price_e8: i64, conf_pp: u64) {
@@ -141,6 +163,20 @@ pub fn build(c: &Cfg, tag: &str) -> Option<Built> {
             }
         }
     }
+    match c.variant {
+        Variant::AssetShareBelowOne => world::edit_bank(&mut s, &w.banks[0].key, |b| b.asset_share_value = (I80F48::from(b.asset_share_value) * I80F48::from_num(0.8)).into()),
+        Variant::SharesAboveOne => {
+            world::edit_bank(&mut s, &w.banks[0].key, |b| {
+                b.asset_share_value = (I80F48::from(b.asset_share_value) * I80F48::from_num(1.25)).into();
+                b.liability_share_value = (I80F48::from(b.liability_share_value) * I80F48::from_num(1.3)).into();
+            });
+            world::edit_bank(&mut s, &w.banks[1].key, |b| {
+                b.asset_share_value = (I80F48::from(b.asset_share_value) * I80F48::from_num(1.2)).into();
+                b.liability_share_value = (I80F48::from(b.liability_share_value) * I80F48::from_num(1.3)).into();
+            });
+        }
+        _ => {}
+    }
     // steer the liquidatee's maintenance health with the debt asset's price
     let acct = w.users[0].account;
     let hm = |s: &Store| health::health(s, &acct, Req::Maintenance).unwrap().health();
@@ -170,6 +206,21 @@ pub fn build(c: &Cfg, tag: &str) -> Option<Built> {
         Level::DeeplyNegative => set_price(&mut s, &w, 1, hi * 3, 0),
         Level::NegativeOnlyAfterBias => set_price(&mut s, &w, 1, lo - lo / 200, 1000),
     }
+    // the time-weighted prices move away from spot only now: maintenance health (spot) is unchanged
+    let ema_pct = match c.variant {
+        Variant::EmaBelowSpot => 80,
+        Variant::EmaAboveSpot => 125,
+        _ => 100,
+    };
+    if ema_pct != 100 {
+        for bi in [0usize, 1] {
+            let ok = w.banks[bi].oracle.unwrap();
+            let raw = health::parse_pyth(&s.get(&ok).unwrap().data).unwrap();
+            let (price, conf) = (raw.price, raw.conf);
+            let conf_pp = (conf as u128 * 100_000 / price.max(1) as u128) as u64;
+            world::set_oracle(&mut s, &ok, &pyth_spec_ema(price, conf_pp, ema_pct));
+        }
+    }
     Some(Built { w, s })
 }
 
@@ -198,7 +249,11 @@ struct R {
 }
 
 fn sig(c: &Cfg) -> String {
-    format!("{:?}:{:?}", c.level, c.liquidator)
+    if c.variant == Variant::Plain {
+        format!("{:?}:{:?}", c.level, c.liquidator)
+    } else {
+        format!("{:?}:{:?}:{:?}", c.level, c.liquidator, c.variant)
+    }
 }
 
 fn judge(c: &Cfg, b: &Built, amt: u64, found: &mut Vec<Found>) -> (bool, u64) {
@@ -323,7 +378,8 @@ fn run_cfg(c: &Cfg, idx: usize) -> R {
             boundary = lo;
         }
     }
-    let mut amts = vec![1u64, 2, 3, coll.saturating_sub(1), coll, coll + 1, coll / 2, coll / 7 + 1, u64::MAX / 4];
+    let shares = rf::qfloor(&pos(&b.s, w, 0, 0).a_sh).to_u64().unwrap_or(0);
+    let mut amts = vec![1u64, 2, 3, coll.saturating_sub(1), coll, coll + 1, coll / 2, coll / 7 + 1, u64::MAX / 4, shares.saturating_sub(1).max(1), shares.max(1), shares + 1, (coll + shares) / 2 + 1];
     for d in [-2i64, -1, 1, 2] {
         amts.push((boundary as i64 + d).max(1) as u64);
     }
@@ -351,7 +407,21 @@ pub fn configs(tier: Tier) -> Vec<Cfg> {
             for &liquidator in &lqs {
                 for &(aw, lw) in &[(0.9f64, 1.1f64), (0.6, 1.0), (1.0, 1.4), (1.0, 1.0)] {
                     for &conf in &[0u64, 500] {
-                        v.push(Cfg { pair, level, liquidator, asset_w_maint: aw, liab_w_maint: lw, asset_conf_pp: conf });
+                        v.push(Cfg { pair, level, liquidator, asset_w_maint: aw, liab_w_maint: lw, asset_conf_pp: conf, variant: Variant::Plain });
+                    }
+                }
+            }
+        }
+    }
+    // departures from the flat world on a sub-product
+    for variant in [Variant::EmaBelowSpot, Variant::EmaAboveSpot, Variant::AssetShareBelowOne, Variant::SharesAboveOne] {
+        for &pair in pairs {
+            for &level in &[Level::SlightlyNegative, Level::Negative, Level::DeeplyNegative] {
+                for &liquidator in &[Liquidator::LargeDepositInDebtBank, Liquidator::OnlyOtherCollateral] {
+                    for &(aw, lw) in &[(0.9f64, 1.1f64), (1.0, 1.0)] {
+                        for &conf in &[0u64, 500] {
+                            v.push(Cfg { pair, level, liquidator, asset_w_maint: aw, liab_w_maint: lw, asset_conf_pp: conf, variant });
+                        }
                     }
                 }
             }
